@@ -7,12 +7,12 @@ use serde::{Deserialize, Serialize};
 use serde_json::{json, Value};
 use sourcemap::{decode_slice, DecodedMap};
 
-/// Function-map model: entries strictly increasing by (1-based line, column).
+/// Function-map model: entries non-decreasing by (1-based line, column); values may exceed u32.
 #[derive(Clone, Debug, Serialize, Deserialize, PartialEq)]
 pub struct FnMap {
     pub names: Vec<String>,
     /// (line 1-based, column, name index)
-    pub entries: Vec<(u32, u32, u32)>,
+    pub entries: Vec<(u64, u64, u64)>,
 }
 
 /// RMetro writer. `style`: 0 = every segment carries all three fields; 1 = the line delta
@@ -72,7 +72,7 @@ pub fn rmetro_write(fm: &FnMap, style: usize) -> String {
 /// RMetro lookup: name of the last entry at or before (orig line + 1, orig col).
 pub fn rmetro_scope(fm: &FnMap, orig_line: u32, orig_col: u32) -> Option<&str> {
     let key = (orig_line as u64 + 1, orig_col as u64);
-    let e = fm.entries.iter().filter(|e| (e.0 as u64, e.1 as u64) <= key).last()?;
+    let e = fm.entries.iter().filter(|e| (e.0, e.1) <= key).last()?;
     fm.names.get(e.2 as usize).map(String::as_str)
 }
 
@@ -87,6 +87,8 @@ pub enum Meta {
     /// unparsable mappings string
     Broken(String),
     EmptyMappings,
+    /// the metadata list's first slot is null (`[null]`), optionally followed by a function map
+    InnerNull(bool),
     /// no entry at all for this source (x_facebook_sources shorter than sources)
     Missing,
 }
@@ -100,6 +102,8 @@ impl Meta {
             Meta::EmptyList => json!([]),
             Meta::Broken(s) => json!([{"names": ["f0", "f1", "f2"], "mappings": s}]),
             Meta::EmptyMappings => json!([{"names": ["f0"], "mappings": ""}]),
+            Meta::InnerNull(false) => json!([null]),
+            Meta::InnerNull(true) => json!([null, {"names": ["zzz"], "mappings": "AAA"}]),
             Meta::Missing => return None,
         })
     }
@@ -267,7 +271,7 @@ fn token_grid(src: u32) -> Vec<(Option<u32>, u32, u32)> {
 fn fm_of(posidx: &[usize], names_idx: &[usize]) -> FnMap {
     FnMap {
         names: vec!["f0".into(), "f1".into(), "f2".into()],
-        entries: posidx.iter().zip(names_idx).map(|(&p, &n)| (FPOS_LINES[p / 3], FPOS_COLS[p % 3], n as u32)).collect(),
+        entries: posidx.iter().zip(names_idx).map(|(&p, &n)| (FPOS_LINES[p / 3] as u64, FPOS_COLS[p % 3] as u64, n as u64)).collect(),
     }
 }
 
@@ -284,6 +288,8 @@ fn meta_menu() -> Vec<Meta> {
         Meta::Broken("gggggggggggggA".into()), // 14 digits
         Meta::Broken("A!A".into()),            // foreign byte
         Meta::EmptyMappings,
+        Meta::InnerNull(false),
+        Meta::InnerNull(true),
         Meta::Missing,
     ]
 }
@@ -311,7 +317,7 @@ pub fn run(run: &mut Run) -> Finish {
                     l.violation_sub(idx, sub, Viol::new(format!("C14/{sig}"), what, json!({"case": serde_json::to_value(&c).unwrap()})));
                 }
                 sub += 1;
-                let lines: std::collections::BTreeSet<u32> = fm.entries.iter().map(|e| e.0).collect();
+                let lines: std::collections::BTreeSet<u64> = fm.entries.iter().map(|e| e.0).collect();
                 l.case(*k > 0, h64(&(k, lines.len(), names_idx.contains(&3), style)));
                 if na == 1 && style == 1 && l.wants_sample(idx) {
                     l.sample(idx, json!({"function_map": serde_json::to_value(&fm).unwrap(), "mappings": rmetro_write(&fm, style), "tokens": c.tokens.len()}));
@@ -341,6 +347,56 @@ pub fn run(run: &mut Run) -> Finish {
         if l.wants_sample(idx) {
             l.sample(idx, json!({"document": String::from_utf8_lossy(&build_doc(&c))}));
         }
+    });
+    // slice 4: name indices and lines of 2^32 and beyond, and repeated positions
+    let big: Vec<FnMap> = {
+        let names = vec!["f0".to_string(), "f1".to_string(), "f2".to_string()];
+        let nvals: [u64; 6] = [0, 1, 2, 3, 1 << 32, (1 << 32) + 1];
+        let mut v = vec![];
+        // (a) every name-index assignment over {0,1,2,3,2^32,2^32+1} for 1..2 entries
+        for a in nvals {
+            v.push(FnMap { names: names.clone(), entries: vec![(1, 0, a)] });
+            for b in nvals {
+                v.push(FnMap { names: names.clone(), entries: vec![(1, 0, a), (1, 4, b)] });
+                v.push(FnMap { names: names.clone(), entries: vec![(1, 0, a), (2, 0, b)] });
+            }
+        }
+        // (b) lines / columns at and beyond 2^32 (1-based line 2^32 = 0-based line u32::MAX)
+        for (l, c) in [(1u64 << 32, 0u64), (1 << 32, 4), ((1 << 32) + 1, 0), (3, 1 << 32), (1, (1 << 32) + 4), (u32::MAX as u64, 0), (u32::MAX as u64, u32::MAX as u64)] {
+            v.push(FnMap { names: names.clone(), entries: vec![(1, 0, 0), (l, c, 1)] });
+            v.push(FnMap { names: names.clone(), entries: vec![(1, 0, 0), (1, 4, 2), (l.max(2), c, 1)] });
+        }
+        // (c) repeated positions: every non-decreasing list of <= 3 entries over 3 positions with distinct names
+        let pos = [(1u64, 0u64), (1, 4), (2, 0)];
+        for k in 1..=3usize {
+            for ms in multisets(3, k) {
+                v.push(FnMap { names: names.clone(), entries: ms.iter().enumerate().map(|(i, &p)| (pos[p].0, pos[p].1, i as u64)).collect() });
+            }
+        }
+        v
+    };
+    let nbig = big.len() as u64;
+    run.par_slice("function maps with name indices 2^32 and 2^32+1, entries at lines / columns of 2^32 and beyond (tokens at original line u32::MAX), and repeated positions (the LAST entry at a position counts), 4 encodings", 4, nbig * 4, |idx, l| {
+        let k = idx & ((1 << 40) - 1);
+        let fm = &big[(k / 4) as usize];
+        let mut tokens = token_grid(0);
+        for (ol, oc) in [(u32::MAX, 0u32), (u32::MAX, 4), (u32::MAX - 1, 0), (0, u32::MAX), (2, u32::MAX)] {
+            tokens.push((Some(0), ol, oc));
+        }
+        let c = Case { metas: vec![Meta::Fn(fm.clone(), (k % 4) as usize)], tokens };
+        if let Some((sig, what)) = check_case(&c) {
+            let cls = if fm.entries.windows(2).any(|w| (w[0].0, w[0].1) == (w[1].0, w[1].1)) {
+                "repeated-position"
+            } else if fm.entries.iter().any(|e| e.0 > u32::MAX as u64 || e.1 > u32::MAX as u64) {
+                "position-beyond-u32"
+            } else if fm.entries.iter().any(|e| e.2 > u32::MAX as u64) {
+                "name-index-beyond-u32"
+            } else {
+                "plain"
+            };
+            l.violation(idx, Viol::new(format!("C14/{sig}/{cls}"), what, json!({"case": serde_json::to_value(&c).unwrap(), "class": cls})));
+        }
+        l.case(true, h64(&("big", k)));
     });
     // slice 3: broken function maps at every truncation / every foreign byte position of a real one
     let fm = FnMap { names: vec!["f0".into(), "f1".into(), "f2".into()], entries: vec![(1, 0, 0), (1, 4, 1), (2, 9, 2), (4, 4, 0)] };
@@ -384,5 +440,6 @@ pub fn run(run: &mut Run) -> Finish {
 
 pub fn recheck(case: &Value) -> Vec<Viol> {
     let Ok(c) = serde_json::from_value::<Case>(case["case"].clone()) else { return vec![] };
-    check_case(&c).map(|(s, w)| Viol::new(format!("C14/{s}"), w, case.clone())).into_iter().collect()
+    let suffix = case["class"].as_str().map(|c| format!("/{c}")).unwrap_or_default();
+    check_case(&c).map(|(s, w)| Viol::new(format!("C14/{s}{suffix}"), w, case.clone())).into_iter().collect()
 }
